@@ -5,6 +5,7 @@ package main
 // unsafe, reflection) or that need a symbolic-aware model.
 
 import (
+	"math/bits"
 	"fmt"
 	"go/types"
 	"math"
@@ -261,6 +262,10 @@ func init() {
 		v := rangeDraw(fr, args)
 		return done(int(fr.in.concretize(v.T, "Len:"+name(args, 0))))
 	}
+	verifrtFns["LenLayout"] = func(fr *frame, args []value) (value, bool) {
+		v := rangeDraw(fr, []value{"layout:" + name(args, 0), args[1], args[2]})
+		return done(int(fr.in.concretize(v.T, "LenLayout:"+name(args, 0))))
+	}
 	verifrtFns["Choice"] = func(fr *frame, args []value) (value, bool) {
 		k := asInt64(args[1])
 		v := rangeDraw(fr, []value{args[0], 0, int(k - 1)})
@@ -289,6 +294,11 @@ func init() {
 	}
 	verifrtFns["Unwind"] = func(fr *frame, args []value) (value, bool) {
 		fr.in.path.unwind = int(asInt64(args[0]))
+		return done(nil)
+	}
+	verifrtFns["TerminationBound"] = func(fr *frame, args []value) (value, bool) {
+		fr.in.path.unwind = int(asInt64(args[0]))
+		fr.in.path.unwindViolates = true
 		return done(nil)
 	}
 	verifrtFns["MapOrderAll"] = func(fr *frame, args []value) (value, bool) {
@@ -740,6 +750,28 @@ func init() {
 		"Hypot": math.Hypot, "Copysign": math.Copysign, "Remainder": math.Remainder, "Nextafter": math.Nextafter, "Dim": math.Dim,
 	} {
 		externals["math."+n] = f2(f)
+	}
+	// math/bits.Len*: the result decides field widths and shift counts; a
+	// symbolic argument is case split over the feasible results.
+	for name, w := range map[string]int{"Len64": 64, "Len32": 32, "Len16": 16, "Len8": 8, "Len": 64} {
+		width := w
+		externals["math/bits."+name] = func(fr *frame, args []value) (value, bool) {
+			if _, u, ok := unboxInt(args[0]); ok {
+				return done(int(bits.Len64(u)))
+			}
+			sv, ok := args[0].(Sym)
+			if !ok {
+				panic(fr.in.unsupported("bits.Len of a non-integer value"))
+			}
+			tt := fr.in.tt
+			x := sv.T
+			res := tt.Const(8, uint64(width))
+			for r := width - 1; r >= 0; r-- {
+				// Len(x) <= r  iff  x < 2^r
+				res = tt.Ite(tt.Cmp(OpUlt, x, tt.Const(x.W, uint64(1)<<uint(r))), tt.Const(8, uint64(r)), res)
+			}
+			return done(int(fr.in.concretize(res, "bits.Len")))
+		}
 	}
 	externals["math.Float64bits"] = func(fr *frame, args []value) (value, bool) {
 		return done(math.Float64bits(args[0].(float64)))
